@@ -7,6 +7,7 @@ import RactorModel.Lemmas.FactoryDrain
 import RactorModel.Lemmas.FactoryHooks
 import RactorModel.Lemmas.FactoryActors
 import RactorModel.Lemmas.FactoryLimitRun
+import RactorModel.Lemmas.FactoryWorkerLimit
 
 /-!
 # C15 — Factory capacity controls: limits, rate, pool size, draining
@@ -224,6 +225,34 @@ exit condition. -/
 theorem limit_worker_oldest (p : WP) (e : Env) (j : Job) (L : Nat) (hd : p.disc = some (L, .oldest))
     (hbusy : p.curr ≠ []) : (p.enqueueJob e j).1.mq.length ≤ L :=
   enqueueJob_oldest_le p e j L hd hbusy
+
+open Factory in
+/-- (limit, worker queues, WHOLE RUNS; under `noStaleRun`) for the routers that queue at the workers (key-persistent,
+round-robin, custom hash), every configuration with a discard limit `L` (either mode, 0 included, with or without a
+rate limiter, either queue type) and EVERY sequence of operations that leaves the discard settings alone and contains
+no stale completion (F4) — dispatches, completions, failures and kills, resizes, drains, handler updates, clock
+advances, a factory held busy and released — every worker's own queue holds at most `L` jobs at every instant an
+operation has been applied. (Audit C15 §5.1, the worker-queue half of the property's first sentence: the one-step
+lemma `limit_worker_queue` ASSUMED that the target's actor is open; here that is derived for every enqueue of every
+run. Three run invariants carry each other, `Lemmas/FactoryWorkerLimit.lean`: the actors agree with the bookkeeping
+(`J`), so when the factory handles a message every slot's actor is open and `dispatch_job` never pushes a job back;
+while there is a worker the factory queue is empty (`NB`), so nothing is routed while a dead worker waits for its
+replacement; the bound itself.) Without `noStaleRun` the hand-over assumption fails exactly as in F4. -/
+theorem worker_queue_limit_run_partial (c : CaseCfg) (L : Nat) (m : Mode)
+    (hq : isFactoryQueueing c.cfg.router = false) (hd : c.disc = some (L, m)) (steps : List Step)
+    (hk : steps.all (fun s => s.op.keepsDisc) = true) (hns : noStaleRun (init c) steps = true) :
+    ∀ p ∈ ((init c).runSteps steps).pool, p.disc = some (L, m) ∧ p.mq.length ≤ L :=
+  fun p hp => (wl_always c hq hd steps hk hns).b.all p hp
+
+open Factory in
+def wqRunCase : CaseCfg :=
+  { cfg := { router := .kp, prioQueue := false, hasHandler := true, table := [], hasCC := false }, n := 1,
+    disc := some (1, .oldest), rl := none }
+open Factory in
+/-- non-vacuity: the bound is reached on the worker's queue (job 1 in flight, job 4 waits, 2 and 3 were shed) -/
+example : limRunSteps.all (fun s => s.op.keepsDisc) = true ∧ noStaleRun (init wqRunCase) limRunSteps = true ∧
+    ((init wqRunCase).runSteps limRunSteps).pool.map (fun p => p.mq.map (·.id)) = [[4]] := by
+  decide +kernel
 
 /-! ## Rate limiting: rejections are reported `RateLimited` -/
 
@@ -558,6 +587,7 @@ end C15
 #print axioms C15.queue_limit_oldest_run
 #print axioms C15.queue_limit_newest_run
 #print axioms C15.disc_settings_constant_run
+#print axioms C15.worker_queue_limit_run_partial
 #print axioms C15.limit_worker_queue
 #print axioms C15.limit_worker_oldest
 #print axioms C15.rate_limited_dispatch
